@@ -146,7 +146,9 @@ CLAIMED = {
             'documented policy says, never from another call\'s key, bodies run only under run-original, nothing is created / '
             'saved / aborted and the stored recordings are unchanged; any number of replays of one recording (with any other '
             'replays in between, also when the replayed code flips the enable switch) give the same answer '
-            '(C02_replay_idempotent, C02_replay_after_replays).',
+            '(C02_replay_idempotent, C02_replay_after_replays); whole run: how a replay ends is a function of the recording, the '
+            'output counters and the program alone (C02_answered_from_recording, C02_replay_depends_on_recording_only; '
+            'premise: no run-original site).',
             'Trusted: Lean kernel; recorder model tied by differential execution; structured keys (text rendering is C06).',
             'DESIGN.md 6/C02'),
     'C03': ('Lean 4 theorems: each intercepted output call adds exactly one entry (alias, next ordinal) -> sent arguments in '
